@@ -11,6 +11,61 @@ COMMON_NOTE = ("Trusted: Lean 4.33 kernel (axioms audited per theorem: subset of
                "standard library. ")
 
 CLAIMED = {
+    "C07": {
+        "text": "Lean model of dependency_sort (depth-first with processed set, insertion-ordered dict) with theorems "
+                "for EVERY dependency tree of any size: depsort_perm (cycles, self-loops, dangling edges: the result "
+                "is a permutation of the keys; the recursion stays within its fuel) and depsort_dependencies_first "
+                "(acyclic trees: every listed dependency that is a key stands earlier); cycle_entry_witness proves the "
+                "documented indirect-dependency contract fails on a cyclic tree (known finding D14). The model is tied "
+                "to the code by running both on all digraphs <= 3 keys (+4 keys exhaustively, 5..7 sampled). "
+                "Invariance under renderings is decided differentially: every generated interface is written in a "
+                "canonical and several random renderings and the clients are compared on operations, parameters, "
+                "requests (infoset), decoded replies and factory objects, and with the reference translator.",
+        "design_ref": "DESIGN.md section 6, C07",
+        "note": "XML text -> schema objects (Schema/SchemaCollection/merge) is exercised, not modelled; see PARTIAL.",
+        "technique": "Lean 4 proof (DFS invariants, rank argument) + differential correspondence on all small digraphs + metamorphic differential check over generated rendering pairs",
+    },
+    "C03": {
+        "text": "Lean model of Builder.build/process (attribute defaults, flattened content model, skip of choice "
+                "branches, empty lists for repeating members, None for optional members and leaves, recursive "
+                "pre-building of required complex children under a history) with theorems for every environment and "
+                "type: skeleton_fields (the attribute names are exactly the attributes then the non-choice members of "
+                "the flattened content model, in schema order, inherited first), choice_branch_absent, "
+                "repeating_is_empty_list, leaf_is_none, optional_complex_is_none, required_complex_prebuilt, "
+                "recursion_cut_off, attribute_defaults. Tied to suds by comparing factory.create for every type and "
+                "wrapped input element of the generated family, under every resolving spelling of its name, with the "
+                "model and a reference skeleton; filled objects are sent and compared with the equivalent dict's "
+                "request; unknown names must raise TypeNotFound.",
+        "design_ref": "DESIGN.md section 6, C03",
+        "note": "name resolution (PathResolver) is exercised by the spellings, not modelled.",
+        "technique": "Lean 4 proof (case analysis / induction over member lists) + differential correspondence on factory objects",
+    },
+    "C02": {
+        "text": "Lean model of the typed unmarshaller working on the namespace-resolved infoset (xsi:type selection, "
+                "attribute filtering, child accumulation, post-processing, reply shaping: single / list / composite, "
+                "section-5 arrays) with theorems for every sequence of children: repeating_member_is_list (a repeating "
+                "member is the list of its occurrences in document order, a list of one for one occurrence, absent for "
+                "none), single_member_is_value, nil_is_none, data_is_object, leaf_is_typed_text, xsi_type_selects_type, "
+                "leaf/nil round trips with the C01 marshaller; witness theorem for known finding D32. Tied to suds by "
+                "injecting, into real invocations, replies written by an independent writer in several presentations "
+                "of one infoset and comparing the returned data with the model and with a reference decoder.",
+        "design_ref": "DESIGN.md section 6, C02",
+        "note": "parsing and prefix passes are the C04/C05 models; here their output (the infoset) is the model's input.",
+        "technique": "Lean 4 proof (induction over child sequences) + differential correspondence on injected replies + independent writer/reference decoder",
+    },
+    "C01": {
+        "text": "Lean model of the schema-driven marshaller (flattened content model with inherited members first, "
+                "per-member skip / nil / xsi:type / namespace decisions, rpc and document wrappers, section-5 arrays) "
+                "with theorems for every environment, type and value tree: members_inherited_first, marshal_names "
+                "(every element written for an accessor has its name and form-rule namespace, at any depth), "
+                "object_children_in_schema_order, optional_none_omitted, required_nillable_none_is_nil, "
+                "xsi_type_iff_derived, array_type_and_length. Tied to suds by a whole-tree correspondence: the model, "
+                "an independent Python reference translator and the bytes suds hands to the transport (read back by "
+                "expat) are compared on every generated (interface, operation, argument tree, dict/object mode).",
+        "design_ref": "DESIGN.md section 6, C01",
+        "note": "schema documents are not modelled (C07 checks renderings behave alike); leaf lexical forms are C06.",
+        "technique": "Lean 4 proof (induction over fuel/value trees) + differential correspondence against an expat-read request + Python reference translator",
+    },
     "C04": {
         "text": "Lean theorems over the model of Encoder/Text/rendering: the five sequential re.sub passes over the "
                 "GENERATED escape table equal one left-to-right pass; its output is well-formed for every string; an "
